@@ -57,13 +57,16 @@ PROP = {
             "proc: every processor kind {command, event, event group} x AckCommandHandlingErrors x AckOnUnknownEvent x OnHandle {nil, "
             "pass-through} x {JSON, Protobuf} x 6 name generators (default, StructName, NamedStruct, names differing only in case with a "
             "collision, the empty name, names equal only under Unicode case folding), 6 (quick) / 60 (thorough) random registries of 1..5 "
-            "handlers over 4 Go types (duplicates frequent) each with a stream of 10 / 14 messages mixing known (produced by the real "
+            "handlers over 4 Go types – JSON: 6, including two instantiations Changed[OrderPlaced] / Changed[UserCreated] of one generic "
+            "struct, whose names the harness writes out by hand for every generator (two types, two names: 'OrderPlaced]' / 'UserCreated]' "
+            "under StructName and NamedStruct(StructName)); 1 in 5 JSON registries holds both instantiations side by side – (duplicates frequent) each with a stream of 10 / 14 messages mixing known (produced by the real "
             "marshaler), unknown-name, name-under-another-key, malformed-payload and foreign (name of one type, payload of another) messages, "
             "scripted handler outcomes ok/error/panic, a stale 'original message' in the incoming context in 1/4 of the messages; real "
             "message.Router, scripted subscribers, each delivered message object awaited on Acked()/Nacked(); plus an exhaustive decision "
             "table (every kind x flag setting x registry over two Go types of length 1..3 x message name {type 0, type 1, nobody's} x "
             "payload {type 0, type 1, malformed} x every ok/error/panic outcome assignment, both marshalers; thorough: also with OnHandle) "
-            "and corpus/C15 (minimised cases that separated the self-test mutants); concurrent cases (info suffix .c; 2 / 12 per "
+            "(and the same table over the two generic instantiations under StructName) and corpus/C15 (minimised cases that separated the "
+            "self-test mutants; form @ty.seed = the message the marshaler under test produces for that value); concurrent cases (info suffix .c; 2 / 12 per "
             "kind x flags x OnHandle x marshaler x name generator): the whole stream of 2..5 messages is handed to a subscription without "
             "waiting for acks (the Router runs one goroutine per message) and a wrapping marshaler holds every message inside Unmarshal "
             "until all of the batch are there – past the per-message context set-up, before any handler call – invocations are attributed "
